@@ -3,6 +3,7 @@ package main
 // ssahelp.go — recognisers for common go/ssa shapes (append, composite literals, closures, heap ops).
 
 import (
+	"sort"
 	"go/token"
 	"go/types"
 	"strings"
@@ -197,7 +198,11 @@ func closureArg(c *ssa.CallCommon, i int) *ssa.Function {
 func comparatorDirection(w *World, fn *ssa.Function) (dir, field, why string) {
 	rets := returnsOf(fn)
 	if len(rets) != 1 || len(rets[0].Results) != 1 {
-		return "", "", "comparator does not have a single return"
+		// several returns / tie-breaks: decide by evaluation
+		return comparatorByEvaluation(w, fn)
+	}
+	if _, single := rets[0].Results[0].(*ssa.BinOp); !single {
+		return comparatorByEvaluation(w, fn)
 	}
 	bo, ok := rets[0].Results[0].(*ssa.BinOp)
 	if !ok {
@@ -240,6 +245,138 @@ func comparatorDirection(w *World, fn *ssa.Function) (dir, field, why string) {
 		return "asc", field, ""
 	}
 	return "desc", field, ""
+}
+
+// comparatorByEvaluation handles lexicographic comparators (primary key, then tie-breaks) and comparators written with
+// branches: the body is interpreted under every combination of relations (<, =, >) between the i-th and j-th element's
+// projections it compares. The primary key is the projection F such that F_i < F_j forces one answer and F_i > F_j the
+// other, whatever the remaining projections are; "asc" when F_i < F_j ⇒ true.
+func comparatorByEvaluation(w *World, fn *ssa.Function) (dir, field, why string) {
+	np := len(fn.Params)
+	if np < 2 {
+		return "", "", "comparator has fewer than two parameters"
+	}
+	pi, pj := "P"+itoa(np-2), "P"+itoa(np-1)
+	c := NewCanon(w)
+	// projections compared
+	type cmpInfo struct {
+		field string
+		iLeft bool // element i on the left
+	}
+	infos := map[*ssa.BinOp]cmpInfo{}
+	fieldSet := map[string]bool{}
+	allInstrs(fn, func(in ssa.Instruction) {
+		bo, ok := in.(*ssa.BinOp)
+		if !ok {
+			return
+		}
+		switch bo.Op {
+		case token.LSS, token.GTR, token.LEQ, token.GEQ, token.EQL, token.NEQ:
+		default:
+			return
+		}
+		l, r := c.S(bo.X), c.S(bo.Y)
+		li, lj := strings.Contains(l, "["+pi+"]"), strings.Contains(l, "["+pj+"]")
+		ri, rj := strings.Contains(r, "["+pi+"]"), strings.Contains(r, "["+pj+"]")
+		switch {
+		case li && !lj && rj && !ri:
+			f := strings.Replace(l, "["+pi+"]", "[#]", 1)
+			if f == strings.Replace(r, "["+pj+"]", "[#]", 1) {
+				infos[bo] = cmpInfo{f, true}
+				fieldSet[f] = true
+			}
+		case lj && !li && ri && !rj:
+			f := strings.Replace(l, "["+pj+"]", "[#]", 1)
+			if f == strings.Replace(r, "["+pi+"]", "[#]", 1) {
+				infos[bo] = cmpInfo{f, false}
+				fieldSet[f] = true
+			}
+		}
+	})
+	var fields []string
+	for f := range fieldSet {
+		fields = append(fields, f)
+	}
+	sort.Strings(fields)
+	if len(fields) == 0 || len(fields) > 3 {
+		return "", "", "comparator compares " + itoa(len(fields)) + " projections of its two elements"
+	}
+	// rel[f] ∈ {-1,0,1}: F_i ? F_j
+	eval := func(rel map[string]int) (bool, bool) {
+		return evalBoolFn(fn, func(v ssa.Value) (bool, bool) {
+			bo, ok := v.(*ssa.BinOp)
+			if !ok {
+				return false, false
+			}
+			info, ok := infos[bo]
+			if !ok {
+				return false, false
+			}
+			r := rel[info.field]
+			if !info.iLeft {
+				r = -r
+			}
+			switch bo.Op {
+			case token.LSS:
+				return r < 0, true
+			case token.GTR:
+				return r > 0, true
+			case token.LEQ:
+				return r <= 0, true
+			case token.GEQ:
+				return r >= 0, true
+			case token.EQL:
+				return r == 0, true
+			case token.NEQ:
+				return r != 0, true
+			}
+			return false, false
+		})
+	}
+	for _, f := range fields {
+		var others []string
+		for _, g := range fields {
+			if g != f {
+				others = append(others, g)
+			}
+		}
+		ltAll, gtAll := map[bool]int{}, map[bool]int{}
+		decided := true
+		n := 1
+		for range others {
+			n *= 3
+		}
+		for mask := 0; mask < n; mask++ {
+			rel := map[string]int{}
+			m := mask
+			for _, g := range others {
+				rel[g] = m%3 - 1
+				m /= 3
+			}
+			rel[f] = -1
+			v, ok := eval(rel)
+			if !ok {
+				decided = false
+			}
+			ltAll[v]++
+			rel[f] = 1
+			v, ok = eval(rel)
+			if !ok {
+				decided = false
+			}
+			gtAll[v]++
+		}
+		if !decided {
+			continue
+		}
+		switch {
+		case ltAll[false] == 0 && gtAll[true] == 0:
+			return "asc", f, ""
+		case ltAll[true] == 0 && gtAll[false] == 0:
+			return "desc", f, ""
+		}
+	}
+	return "", "", "comparator is not a lexicographic order with a primary key (evaluated over " + itoa(len(fields)) + " projections)"
 }
 
 func itoa(i int) string {
